@@ -87,3 +87,19 @@ def lazy_regex(source, name, within=None):
             # multi-line: Regex::new(\n r"...")
             raise slicer.SliceError("Regex::new argument of %s is not a single literal" % name)
     raise slicer.SliceError("no Regex::new in %s" % name)
+
+
+def used_lazy_regexes(source, text, run=None):
+    """(NAME, pattern) for every ALL_CAPS identifier in `text` that is a `static ref NAME: Regex` of `source`'s lazy_static blocks:
+    lets a harness follow a slice that starts (or stops) using a regex."""
+    import re
+    out = []
+    for nm in sorted(set(re.findall(r"\b[A-Z][A-Z0-9_]{2,}\b", text))):
+        try:
+            pat, sp = lazy_regex(source, nm)
+        except slicer.SliceError:
+            continue
+        if run is not None:
+            run.uses(sp)
+        out.append((nm, pat))
+    return out
